@@ -5,7 +5,7 @@
    discipline of the method bodies; table generated from the source in gen/GenOrderFlow.v). *)
 From Coq Require Import ZArith List Bool Arith Lia Permutation Sorted.
 From Coq Require Import String.
-From PB Require Import lib.Perm lib.PermProofs C02.Model C02.Proofs C02.Proofs2D C02.Wrapper2D C02.WrapperG C02.OptModel C02.OptProofs C02.OrderFlow C02.OrderFlowProofs C02.Sites gen.GenOrderFlow.
+From PB Require Import lib.Perm lib.PermProofs C02.Model C02.Proofs C02.Proofs2D C02.Wrapper2D C02.WrapperG C02.CollabModel C02.CollabProofs C02.OptModel C02.OptProofs C02.OrderFlow C02.OrderFlowProofs C02.Sites gen.GenOrderFlow.
 Import ListNotations.
 Close Scope Z_scope.
 Open Scope string_scope.
@@ -289,6 +289,32 @@ Theorem C02_override_x_inverse : forall (sd : side) (s : list nat) (n aw : nat),
 Proof. intros sd s n aw Hs. exact (ext_inverse sd s n aw Hs). Qed.
 Print Assumptions C02_override_x_inverse.
 
+(* collab_pls (skip_sorting=True, no order-related statement of its own): step 1 fits the mean data
+   set (or every data set and averages the weights), step 2 fits every data set with those weights;
+   per-point arrays travel between the sub-fitter calls in the SUPPLIED order.  The average weights,
+   every baseline and every per-data-set weights array are equivariant for every permutation, both
+   settings of average_dataset, any number of data sets, any per-point mean. *)
+Theorem C02_collab_pls :
+  forall (D : Type) (d0 : D) (mean : list D -> D)
+         (b1 b2 : list Z -> list D -> option (list D) -> list D * list D),
+    (forall xs ys ws, length ys = length xs ->
+        match ws with None => True | Some w' => length w' = length xs end ->
+        length (fst (b1 xs ys ws)) = length xs /\ length (snd (b1 xs ys ws)) = length xs) ->
+    (forall xs ys ws, length ys = length xs ->
+        match ws with None => True | Some w' => length w' = length xs end ->
+        length (fst (b2 xs ys ws)) = length xs /\ length (snd (b2 xs ys ws)) = length xs) ->
+  forall (average : bool) (x : list Z) (ys : list (list D)) (pi : list nat),
+    NoDup x -> Forall (fun y => length y = length x) ys -> Permutation pi (seq 0 (length x)) ->
+    collab_pls D d0 mean b1 b2 average (gather 0%Z x pi) (map (fun y => gather d0 y pi) ys)
+    = (gather d0 (fst (collab_pls D d0 mean b1 b2 average x ys)) pi,
+       map (fun r => (gather d0 (fst r) pi, gather d0 (snd r) pi))
+           (snd (collab_pls D d0 mean b1 b2 average x ys))).
+Proof.
+  intros D d0 mean b1 b2 H1 H2 average x ys pi.
+  exact (collab_pls_equivariant D d0 mean b1 b2 H1 H2 average x ys pi).
+Qed.
+Print Assumptions C02_collab_pls.
+
 (* _get_function (1-D; the 2-D one uses the formulas of individual_axes, see C02_individual_axes):
    a sub-fitter class the object does not provide itself is constructed on the SUPPLIED x, and with
    assume_sorted=True only if x was supplied ascending. *)
@@ -351,9 +377,8 @@ Proof. vm_compute. repeat split. Qed.
 Print Assumptions C02_flow_table.
 
 (* What is still pinned as reviewed text (C02/Sites.v): the three order-related statements of
-   custom_bc.  PARTIAL: custom_bc (sub-fitter on the sampled, ascending x_fit) and collab_pls
-   (no order-related statement; per-point arrays passed between sub-fitters) have no Gallina model;
-   they are covered by the metamorphic oracle only. *)
+   custom_bc.  PARTIAL: custom_bc (sub-fitter on the sampled, ascending x_fit) has no Gallina model;
+   it is covered by the metamorphic oracle only. *)
 Theorem C02_sites_pinned_partial : str_list_eqb gen_sites expected_sites = true.
 Proof. vm_compute. reflexivity. Qed.
 Print Assumptions C02_sites_pinned_partial.
